@@ -943,7 +943,7 @@ class EnumConverter(Converter[enum.Enum]):
         val = self.inner_conv.try_convert(val)
         try:
             return self.val_map[val]
-        except KeyError:
+        except (KeyError, TypeError):  # TypeError: unhashable value (e.g. a list inside a tuple)
             raise ParseInterrupt()
 
     def collect_errors(self, val: t.Any) -> t.Optional[ErrorNode]:
@@ -957,7 +957,7 @@ class EnumConverter(Converter[enum.Enum]):
         try:
             self.val_map[val]
             return None
-        except KeyError:
+        except (KeyError, TypeError):  # TypeError: unhashable value
             return WrongTypeError(self.expected(), val)
 
 
